@@ -65,6 +65,20 @@ func (v *FnV) specType(name string, pkg *packages.Package) (types.Type, error) {
 	case "error":
 		return types.Universe.Lookup("error").Type(), nil
 	}
+	if strings.HasPrefix(name, "*") {
+		t, err := v.specType(name[1:], pkg)
+		if err != nil {
+			return nil, err
+		}
+		return types.NewPointer(t), nil
+	}
+	if strings.HasPrefix(name, "[]") {
+		t, err := v.specType(name[2:], pkg)
+		if err != nil {
+			return nil, err
+		}
+		return types.NewSlice(t), nil
+	}
 	if pkg == nil {
 		return nil, fmt.Errorf("unknown type %q", name)
 	}
@@ -183,6 +197,27 @@ func (v *FnV) sp(st *State, e *SExpr, sc *Scope) Value {
 		}
 		return Value{T: tBool, S: fmt.Sprintf("(exists (%s) %s)", strings.Join(binders, " "), sAnd(append(ranges, body)...))}
 	case "field":
+		// qualified identifier pkg.Name (constant or variable of an imported package)
+		if x := e.Args[0]; x.Op == "ident" && sc.pkg != nil {
+			if _, isVar := sc.vars[x.Name]; !isVar {
+				for _, imp := range sc.pkg.Types.Imports() {
+					if imp.Name() != x.Name {
+						continue
+					}
+					switch o := imp.Scope().Lookup(e.Name).(type) {
+					case *types.Const:
+						if val, ok := v.c.constVal(o.Val(), o.Type()); ok {
+							if bt, ok := o.Type().(*types.Basic); ok && bt.Info()&types.IsUntyped != 0 && bt.Info()&types.IsInteger != 0 {
+								val.T = nil
+							}
+							return val
+						}
+					case *types.Var:
+						return v.getVar(st, o)
+					}
+				}
+			}
+		}
 		base := v.sp(st, e.Args[0], sc)
 		return v.specField(st, base, e.Name)
 	case "index":
